@@ -60,7 +60,10 @@ def cases(draw, thorough=False):
         first = dict(hist[0], entry=e)
         hist.extend([first, dict(first)])  # two successive draws of prior samples from one generator
     return {"spec": spec, "history": hist, "seed": draw(st.integers(0, 2**32 - 1)),
-            "alt_seed": draw(st.integers(1, 2**31 - 1)), "multipool": draw(st.integers(0, 9)) == 0}
+            "alt_seed": draw(st.integers(1, 2**31 - 1)), "multipool": draw(st.integers(0, 9)) == 0,
+            # constructor variants: the generator handed over under its deprecated keyword in the second run; a user-chosen
+            # directory for temporary files
+            "alias": draw(st.integers(0, 3)) == 0, "tempfile_path": draw(st.integers(0, 2)) == 0}
 
 
 def table_bits(s):
@@ -87,10 +90,17 @@ def body_factory(ctx):
     import thejoker as tj
     from thejoker.utils import read_batch
 
-    def run_history(case, pool, global_seed, prior, data, lib, libfile):
+    def run_history(case, pool, global_seed, prior, data, lib, libfile, second=False):
         np.random.seed(global_seed % (2**32))
         random.seed(global_seed)
-        joker = tj.TheJoker(prior, rng=np.random.default_rng(case["seed"]), pool=pool)
+        kw_ctor = {}
+        if case.get("tempfile_path"):
+            kw_ctor["tempfile_path"] = os.path.join(ctx.workdir, "c10-tempfiles")
+        if second and case.get("alias"):
+            # `random_state` is the (deprecated, still accepted) former name of `rng`
+            joker = tj.TheJoker(prior, random_state=np.random.default_rng(case["seed"]), pool=pool, **kw_ctor)
+        else:
+            joker = tj.TheJoker(prior, rng=np.random.default_rng(case["seed"]), pool=pool, **kw_ctor)
         prng = np.random.default_rng(case["seed"] + 1)
         outs = []
         for k, c in enumerate(case["history"]):
@@ -147,9 +157,9 @@ def body_factory(ctx):
         if case["multipool"]:
             from schwimmbad import MultiPool
             with MultiPool(2) as mp:
-                B = run_history(case, mp, case["alt_seed"], prior, data, lib, libfile)
+                B = run_history(case, mp, case["alt_seed"], prior, data, lib, libfile, second=True)
         else:
-            B = run_history(case, schwimmbad.SerialPool(), case["alt_seed"], prior, data, lib, libfile)
+            B = run_history(case, schwimmbad.SerialPool(), case["alt_seed"], prior, data, lib, libfile, second=True)
         names = og  # noqa
         multi_batch = False
         n_by_count = 0
@@ -198,7 +208,9 @@ def body_factory(ctx):
                                     "(successive calls must receive different random streams)" % (i, j))
         nt = len(case["history"]) >= 2 or multi_batch or n_by_count > 0
         ctx.note_case(case, nt, ["calls=%d" % min(len(case["history"]), 6), "multipool" if case["multipool"] else "serial",
-                                 "multi_batch_draws" if multi_batch else "single_batch"] +
+                                 "multi_batch_draws" if multi_batch else "single_batch",
+                                 "ctor:random_state alias" if case.get("alias") else "ctor:rng",
+                                 "ctor:tempfile_path" if case.get("tempfile_path") else "ctor:default tempfile_path"] +
                       sorted(set("entry:" + c["entry"] for c in case["history"])))
 
     return body
